@@ -17,7 +17,8 @@ RULE = ("(1) deterministic parameter sweep: every primitive parameterisation (wi
         "x string kind; bit widths 1..64 x signed x swapped; NullTerminated terminators, Prefixed includelength, Padded/Aligned patterns and moduli 2..9) "
         "alone and under each single-level wrapper, on boundary values; (2) random compositions from the typed grammar (depth<=3 quick, 4 thorough, "
         "arity<=4; incl. rotations, streaming bit regions with counted / read-to-end tails, Sequences and Structs whose named self-derived members select "
-        "later layouts, Select families) x generated values x keyword contexts. non-trivial = recipe of depth >= 2 or with a derived member (Const/Rebuild/Default/Computed/"
+        "later layouts, Select families, the lazy family, regions delimited from their end, tunnels referring to the enclosing scope, references to the "
+        "outermost scope from three levels down - the first recipes of every worker are drawn from these families directly) x generated values x keyword contexts. non-trivial = recipe of depth >= 2 or with a derived member (Const/Rebuild/Default/Computed/"
         "Padding); distinct by recipe shape")
 ASSUMPTIONS = ["values on which the reference model itself is not symmetric (terminator inside a CString, data ending in the pad unit, overlapping flag "
                "masks, doubles not representable in binary32/16, integers that have an Enum label) are outside the domain: counted, not judged",
